@@ -333,6 +333,9 @@ type Rec struct {
 	W  []Write
 }
 
+func (r *Rec) Lock()   { r.mu.Lock() }
+func (r *Rec) Unlock() { r.mu.Unlock() }
+
 func (r *Rec) Write(p []byte) (int, error) {
 	r.mu.Lock()
 	r.W = append(r.W, Write{Level: -99, P: append([]byte(nil), p...)})
